@@ -752,7 +752,7 @@ func init() {
 			}
 			return r, len(b), nil
 		},
-		ident: notaryIdent, reuse: reuseOf[payload.P2PNotaryRequest](nil, false),
+		ident: notaryIdent, reuse: reuseOf[payload.P2PNotaryRequest](nil, false), // (its JSON form is not one of the kind's decoders)
 	})
 
 	// --- state service / trie
@@ -1023,14 +1023,14 @@ func init() {
 	// --- execution results
 	je, jd = jsonOf[state.NotificationEvent](nil)
 	addKind(&kind{name: "notification", weight: 3, build: func(t *tape) any { return buildNotification(t) }, enc: serEnc,
-		dec: serDec[state.NotificationEvent](nil), jsonEnc: je, jsonDec: jd})
+		dec: serDec[state.NotificationEvent](nil), jsonEnc: je, jsonDec: jd, reuse: reuseOf[state.NotificationEvent](nil, true)})
 	je, jd = jsonOf[state.AppExecResult](nil)
 	addKind(&kind{name: "aer", weight: 4, build: func(t *tape) any { return buildAER(t) },
 		enc:  serEnc, // the value itself, as Blockchain.storeBlock does before handing it to subscribers
 		dec:  serDec[state.AppExecResult](nil),
-		dump: aerDump, jsonEnc: je, jsonDec: jd})
+		dump: aerDump, jsonEnc: je, jsonDec: jd, reuse: reuseOf[state.AppExecResult](nil, true)})
 	addKind(&kind{name: "invocation", weight: 1, build: func(t *tape) any { return buildInvocation(t) }, enc: serEnc,
-		dec: serDec[state.ContractInvocation](nil), dump: invocationDump})
+		dec: serDec[state.ContractInvocation](nil), dump: invocationDump, reuse: reuseOf[state.ContractInvocation](nil, false)})
 
 	// --- token transfer logs
 	addKind(&kind{name: "nep17", build: func(t *tape) any { return buildNEP17(t) }, enc: serEnc, dec: serDec[state.NEP17Transfer](nil)})
